@@ -118,14 +118,20 @@ def float_supplements(ctx, rng):
     from cardillo.rods.cosseratRod import make_CosseratRod
     from cardillo.solver import SolverOptions
 
+    from cardillo.rods import Harsch2021
+
     n = 0
     cs = RectangularCrossSection(0.1, 0.2)
-    mat = Simo1986(np.array([5.0, 1.0, 1.0]), np.array([0.5, 2.0, 2.0]))
-    combos = [("Quaternion", False, None, 2), ("Quaternion", True, None, 2), ("SE3", False, None, 1), ("SE3", True, None, 1), ("R12", False, None, 2), ("R12", True, None, 1),
-              ("Quaternion", False, [0, 1, 2], 2), ("Quaternion", True, [1, 2], 2), ("SE3", False, [0, 1, 2], 1), ("R12", True, [0, 1, 2, 3, 4, 5], 2)]
-    for interp, mixed, constraints, degree in combos:
+    simo = Simo1986(np.array([5.0, 1.0, 1.0]), np.array([0.5, 2.0, 2.0]))
+    harsch = Harsch2021(np.array([5.0, 1.0, 1.0]), np.array([0.5, 2.0, 2.0]))
+    combos = [("Quaternion", False, None, 2, simo), ("Quaternion", True, None, 2, simo), ("SE3", False, None, 1, simo), ("SE3", True, None, 1, simo), ("R12", False, None, 2, simo),
+              ("R12", True, None, 1, simo), ("Quaternion", False, [0, 1, 2], 2, simo), ("Quaternion", True, [1, 2], 2, simo), ("SE3", False, [0, 1, 2], 1, simo),
+              ("R12", True, [0, 1, 2, 3, 4, 5], 2, simo),
+              # the second material law (displacement-based rods only)
+              ("Quaternion", False, None, 2, harsch), ("SE3", False, None, 1, harsch), ("R12", False, None, 1, harsch), ("R12", False, None, 2, harsch)]
+    for interp, mixed, constraints, degree, mat in combos:
         for curved in (False, True):
-            name = f"{interp}[p={degree},mixed={mixed},constraints={constraints},{'curved' if curved else 'straight'}]"
+            name = f"{interp}[p={degree},mixed={mixed},constraints={constraints},{type(mat).__name__},{'curved' if curved else 'straight'}]"
             try:
                 with warnings.catch_warnings():
                     warnings.simplefilter("ignore")
@@ -206,6 +212,34 @@ def float_supplements(ctx, rng):
                 res = sum(fa[rod.nodalDOF_r_u[node]] for node in range(rod.nnodes_r))
                 if not (np.max(np.abs(res)) <= 1e-9 * (1 + np.max(np.abs(fa)))):
                     ctx.violation(f"{name}:resultant", f"the internal nodal forces have the resultant {res.tolist()}", where2)
+                # history: the rod is given another stress-free reference (after it has been evaluated): that one is stress free as well
+                with warnings.catch_warnings():
+                    warnings.simplefilter("ignore")
+                    if curved:
+                        Q2 = Rod.straight_configuration(nel, 3.0, r_OP0=np.array([-0.4, 0.1, 0.2]), A_IB0=quat_to_matrix(random_rotation(rng)))
+                    else:
+                        Rc2 = 0.8
+                        Q2 = Rod.pose_configuration(nel, lambda xi: Rc2 * np.array([math.sin(0.5 * math.pi * xi), 0.0, 1 - math.cos(0.5 * math.pi * xi)]),
+                                                    lambda xi: np.array([[math.cos(0.5 * math.pi * xi), 0.0, -math.sin(0.5 * math.pi * xi)], [0, 1.0, 0], [math.sin(0.5 * math.pi * xi), 0.0, math.cos(0.5 * math.pi * xi)]]))
+                    rod.set_reference_strains(Q2)
+                where3 = dict(where, history="a second reference configuration was set after the rod had been evaluated")
+                Q2 = np.asarray(Q2, dtype=float)
+                if not mixed and hasattr(rod, "E_pot"):
+                    E2 = rod.E_pot(t, Q2.copy())
+                    if not (abs(E2) <= tol):
+                        ctx.violation(f"{name}:second-reference:E_pot", f"the strain energy of the second reference configuration is {E2}", where3)
+                if hasattr(rod, "h") and not mixed:
+                    f2 = np.asarray(rod.h(t, Q2.copy(), u0.copy()))
+                    if not (np.max(np.abs(f2)) <= tol):
+                        ctx.violation(f"{name}:second-reference:forces", f"the internal forces of the second reference configuration do not vanish (max {np.max(np.abs(f2)):.2e})", where3)
+                if mixed and getattr(rod, "nla_c", 0) > 0:
+                    c2 = np.asarray(rod.c(t, Q2.copy(), u0.copy(), np.zeros(rod.nla_c)))
+                    if not (np.max(np.abs(c2)) <= tol):
+                        ctx.violation(f"{name}:second-reference:c", f"the compliance residual of the second reference configuration does not vanish (max {np.max(np.abs(c2)):.2e})", where3)
+                if constraints is not None and hasattr(rod, "g"):
+                    g2 = np.asarray(rod.g(t, Q2.copy()))
+                    if not (np.max(np.abs(g2), initial=0.0) <= tol):
+                        ctx.violation(f"{name}:second-reference:g", f"the internal constraints are violated by the second reference configuration (max {np.max(np.abs(g2)):.2e})", where3)
             except Exception as ex:
                 ctx.violation(f"{name}:raises:{type(ex).__name__}", f"{type(ex).__name__}: {ex}", where)
     return n
